@@ -50,7 +50,7 @@ IsEv(e) == l <= Len(Rec) /\ Rec[l].ev = e /\ l' = l + 1
 
 NoRun == [active |-> FALSE, mode |-> "none", cache |-> FALSE, pre |-> <<>>, preLock |-> LAbsent, failedUpdate |-> FALSE,
           mutated |-> FALSE, scanning |-> FALSE, sigScan |-> FALSE, sigEarly |-> FALSE, opensAfterSig |-> 0,
-          faults |-> 0, anyReadable |-> TRUE, lockFault |-> FALSE, started |-> 0]
+          faults |-> 0, anyReadable |-> TRUE, lockFault |-> FALSE, started |-> 0, mustFail |-> FALSE]
 NoCheck == [valid |-> FALSE, tree |-> <<>>, reported |-> {}, total |-> 0]
 
 (* A violated check is reported, never blocks. *)
@@ -84,7 +84,7 @@ EvDev ==
 EvStart ==
   /\ IsEv("start") /\ ~run.active
   /\ run' = [NoRun EXCEPT !.active = TRUE, !.mode = Ev.mode, !.cache = Ev.cache, !.pre = tree, !.preLock = lock,
-                          !.anyReadable = Ev.any_readable, !.started = l]
+                          !.anyReadable = Ev.any_readable, !.started = l, !.mustFail = Ev.must_fail]
   /\ tmp' = <<>> /\ at' = [f \in DOMAIN tree |-> 0]
   /\ UNCHANGED <<tree, lock, maxid, written, lastCheck, clean>>
 
@@ -173,11 +173,16 @@ EvEnd ==
               [reported |-> e.reported, total |-> e.total])
      /\ Check("C05", "CheckPredictsEdit", (editOK /\ ~interrupted /\ ~faulted /\ lastCheck.valid /\ lastCheck.tree = pre) =>
                                         {pr[2] : pr \in new} = lastCheck.reported, [new |-> new, reported |-> lastCheck.reported])
+     /\ Check("C05", "CountMatchesCheckTotal", (editOK /\ ~interrupted /\ ~faulted /\ lastCheck.valid /\ lastCheck.tree = pre /\ e.count >= 0) =>
+                                        e.count = lastCheck.total, [count |-> e.count, total |-> lastCheck.total])
+     /\ Check("C05", "LocationsExact", e.pos_match, e.exit)
      /\ Check("C05", "CountIsActual", (run.mode = "edit" /\ e.count >= 0) => e.count = Cardinality(new), [count |-> e.count, new |-> new])
      (* C06 *)
      /\ Check("C06", "FixpointCheck", (run.mode = "check" /\ clean /\ normal /\ ~interrupted /\ ~faulted) => e.exit = 0, e.exit)
      /\ Check("C06", "FixpointEdit", (run.mode = "edit" /\ clean /\ normal /\ ~faulted) => (post = pre /\ e.lock = run.preLock),
               [lock |-> e.lock, prelock |-> run.preLock])
+     /\ Check("C06", "ReadBackExact", (run.mode = "edit" /\ NoLockUsed(run.preLock, run.cache)) =>
+                                        \A x \in Ids(new) : \A r \in RefsOf(pre) : x > r, [new |-> new])
      (* C07 *)
      /\ Check("C07", "AtomicAtEnd", \A f \in DOMAIN e.cls : e.cls[f] \in {"orig", "new", "gone"}, e.cls)
      /\ Check("C07", "OthersSame", e.others_same, e.exit)
@@ -187,6 +192,12 @@ EvEnd ==
      /\ Check("C08", "NoTmpLeft", normal => e.tmpleft = 0, e.tmpleft)
      (* C16 *)
      /\ Check("C16", "CacheOffLockSame", ~run.cache => e.lock = run.preLock, e.lock)
+     /\ Check("C16", "CacheDefaultOn", (editOK /\ run.cache /\ new # {}) => (e.lock >= 0 /\ LockDominates(e.lock, w1)), e.lock)
+     /\ Check("C16", "CorruptLockFallsBackToScan", (run.mode = "edit" /\ run.cache /\ run.preLock = LCorrupt) =>
+                                        \A x \in Ids(new) : \A r \in RefsOf(pre) : x > r, [new |-> new])
+     /\ Check("C16", "SwitchesRespected", editOK => ~AnyMissing(post), e.exit)
+     /\ Check("C16", "OutOfScopeUntouched", e.others_same, e.exit)
+     /\ Check("C16", "ErrorExitChangesNothing", run.mustFail => (e.exit = 2 /\ e.snapeq), [exit |-> e.exit, snapeq |-> e.snapeq])
      (* C17 *)
      /\ Check("C17", "NoPanicNoHang", e.exit \notin {XPanic, XTimeout}, e.exit)
      (* C18 *)
